@@ -433,8 +433,9 @@ impl Feat {
     }
     fn xnid(&mut self, e: &ExpandedNodeId) {
         self.ident(&e.node_id.identifier);
-        if !e.namespace_uri.is_null() {
-            self.add("xnid-uri");
+        // a namespace uri takes the single `Namespace` slot of the JSON form: an index != 0 next to it is lost
+        if !e.namespace_uri.is_null() && e.node_id.namespace != 0 {
+            self.add("xnid-uri-ns");
         }
     }
     /// outside the property's quantifier?
